@@ -27,6 +27,7 @@
 
 #include "vclient.hpp"
 #include <algorithm>
+#include <cstring>
 #include <set>
 #include <sys/mman.h>
 using namespace vclient;
@@ -116,7 +117,7 @@ struct ElemThrow: std::runtime_error {
 };
 static std::set<const void*> g_live_elems;
 static bool g_throw_in_node = false;  // next construction of an Obj inside an arena block throws
-static char g_fail_alloc = 0;         // 'N' / 'Z': the next allocation of a node / of a record throws AllocFail
+static char g_fail_alloc[64] = {0};   // per logical thread: 'N' / 'Z' = its next allocation of a node / of a record throws
 struct AllocFail : std::bad_alloc {};
 
 struct Obj {
@@ -187,9 +188,9 @@ struct TAlloc {
             throw std::bad_alloc();
         }
         char k = is_rec<T>::value ? 'Z' : (is_node<T>::value ? 'N' : 'B');
-        if (g_fail_alloc == k) {
+        if (g_fail_alloc[verif::self() % 64] == k) {
             // injected allocation failure: nothing is allocated
-            g_fail_alloc = 0;
+            g_fail_alloc[verif::self() % 64] = 0;
             verif::emit(std::string("afl ") + k);
             throw AllocFail();
         }
@@ -380,8 +381,8 @@ struct Runner {
         }
         bool thr = faulty && fault.empty();
         struct Arm {
-            explicit Arm(const std::string& f) { g_fail_alloc = f == "n" ? 'N' : (f == "z" ? 'Z' : 0); }
-            ~Arm() { g_fail_alloc = 0; }
+            explicit Arm(const std::string& f) { g_fail_alloc[verif::self() % 64] = f == "n" ? 'N' : (f == "z" ? 'Z' : 0); }
+            ~Arm() { g_fail_alloc[verif::self() % 64] = 0; }
         } arm(fault);
         bool has = t.rh || t.wh;
         if (name == "lr" || name == "lw") {
@@ -646,6 +647,7 @@ static verif::Result exec(const Script& sc, const verif::Config& cfg0)
     arena_reset();
     g_live_elems.clear();
     g_throw_in_node = false;
+    memset(g_fail_alloc, 0, sizeof g_fail_alloc);
     std::string elem = parts[0];
     bool alloc_ctor = parts.size() > 1 && parts[1] == "a";
     verif::emit("cfg rcu " + elem + " " + (alloc_ctor ? "a" : "d"));
@@ -667,6 +669,16 @@ static verif::Result exec(const Script& sc, const verif::Config& cfg0)
 // script generation: everything terminates under every schedule (the only blocking operation is the
 // write mutex, always released by the same operation)
 // ------------------------------------------------------------------------------------------------
+// allocation faults: a failing record allocation (registration / erase), a failing node or record allocation (push)
+static std::string zfault(Rng& r)
+{
+    return r.chance(1, 9) ? "!z" : "";
+}
+static std::string afault(Rng& r)
+{
+    return r.chance(1, 12) ? "!n" : (r.chance(1, 14) ? "!z" : "");
+}
+
 static Script gen(Rng& r, int size)
 {
     Script s;
@@ -695,11 +707,11 @@ static Script gen(Rng& r, int size)
                 } else if (k < 6) {
                     ops.push_back("pb=" + v + ((obj && r.chance(1, 12)) ? "!" : ""));
                 } else if (k < 7) {
-                    ops.push_back((r.chance(1, 2) ? "ef=" : "eb=") + v);
+                    ops.push_back((r.chance(1, 2) ? "ef=" : "eb=") + v + afault(r));
                 } else if (k < 8) {
-                    ops.push_back("eri=" + std::to_string(r.below(4)));
+                    ops.push_back("eri=" + std::to_string(r.below(4)) + zfault(r));
                 } else {
-                    ops.push_back("erv=" + v);
+                    ops.push_back("erv=" + v + zfault(r));
                 }
             }
             ops.push_back("all");
@@ -722,7 +734,7 @@ static Script gen(Rng& r, int size)
                 int k = r.below(writer ? 12 : 6);
                 switch (k) {
                     case 0:
-                        ops.push_back("beg");
+                        ops.push_back("beg" + zfault(r));
                         break;
                     case 1:
                         ops.push_back("nxt");
@@ -738,22 +750,22 @@ static Script gen(Rng& r, int size)
                         ops.push_back(r.chance(1, 2) ? "beg" : "der");
                         break;
                     case 6:
-                        ops.push_back("pf=" + std::to_string(key++) + ((obj && r.chance(1, 10)) ? "!" : ""));
+                        ops.push_back("pf=" + std::to_string(key++) + ((obj && r.chance(1, 10)) ? "!" : afault(r)));
                         break;
                     case 7:
-                        ops.push_back("pb=" + std::to_string(key++) + ((obj && r.chance(1, 10)) ? "!" : ""));
+                        ops.push_back("pb=" + std::to_string(key++) + ((obj && r.chance(1, 10)) ? "!" : afault(r)));
                         break;
                     case 8:
-                        ops.push_back((r.chance(1, 2) ? "ef=" : "eb=") + std::to_string(key++));
+                        ops.push_back((r.chance(1, 2) ? "ef=" : "eb=") + std::to_string(key++) + afault(r));
                         break;
                     case 9:
-                        ops.push_back(r.chance(2, 3) ? "erc" : "ers");
+                        ops.push_back(std::string(r.chance(2, 3) ? "erc" : "ers") + zfault(r));
                         break;
                     case 10:
-                        ops.push_back("eri=" + std::to_string(r.below(3)));
+                        ops.push_back("eri=" + std::to_string(r.below(3)) + zfault(r));
                         break;
                     default:
-                        ops.push_back("erv=" + std::to_string(1 + r.below(std::max(1, key))));
+                        ops.push_back("erv=" + std::to_string(1 + r.below(std::max(1, key))) + zfault(r));
                         break;
                 }
             }
@@ -794,6 +806,12 @@ int main(int argc, char** argv)
         parse("obj-a;lw,pf=1,rel;lw,pb=2,rel;lw,ef=3,rel;lr,all,all,rel"),
         // handle never used / never released explicitly
         parse("int-a;lr;lw;lw,pf=1"),
+        // allocation failures: registration (first use of a handle), node allocation in push / emplace, zombie-record
+        // allocation in erase (also by a macro, on an already erased element = no allocation, and with readers around)
+        parse("obj-d;lw,beg!z,pf=1!z,pb=2!z,ef=3!z,eb=4!z,pf=5!n,pb=6!n,ef=7!n,eb=8!n,pf=1,pb=2,pb=3,beg,erc!z,nxt,ers!z,der,eri=1!z,erv=3!z,all,eri=0,all,rel"),
+        parse("int-a;lw,pb=1!z,pb=1,pb=2,beg,ers,ers!z,erc!z,all,erv=2!z,erv=2,all,rel,lr,beg!z,beg,der,rel"),
+        parse("obj-d;lw,pf=1,beg,erc!z,rel"),
+        parse("obj-a;lw,pb=1,pb=2,pb=3,rel,lw,eri=1!z,eri=1,eri=0!z,rel;lr,all,all,rel;lr,beg!z,beg,der,nxt,der,rel"),
         // directed schedules (run lengths of the first scheduling decisions, see exec): the writer is stopped inside
         // erase - before the unlink, between unlink and the push of the zombie record, after it - while two readers
         // register and start a traversal; then the writer finishes and releases, the older reader releases (and
